@@ -158,6 +158,8 @@ def tier_a(impl, spec, scripts, aspects):
                 r = (b['tags'].get('R') or ['R'])[0].split()
                 if len(r) > 1 and r[1].startswith('#'):
                     cloned.add(r[1])      # cloning fires afterClone, not afterAssign: not judged here
+            if depth > 0 and opname in LOCKED_STRUCTURAL and len(opt) > 2 and opt[2].startswith('#'):
+                locked_created.add(opt[2])     # its attach/detach pairs inside one pack may be elided together
             if depth > 0 and opname in ('create', 'createarch', 'build'):
                 r = (b['tags'].get('R') or ['R'])[0].split()
                 if len(r) > 1 and r[1].startswith('#'):
